@@ -122,6 +122,13 @@ func runC20(c *mon.Ctx) {
 			opOtherUser := op
 			opOtherUser.UserID = otherUser
 			reject("other-user", opOtherUser, tok)
+			for kind, variant := range map[string]string{"user-case-upper": strings.ToUpper(user), "user-case-lower": strings.ToLower(user), "user-trailing-space": user + " ", "user-leading-space": " " + user} {
+				if variant != user {
+					o := op
+					o.UserID = variant
+					reject(kind, o, tok)
+				}
+			}
 			opPrefix := op
 			opPrefix.UserID = user[:len(user)-1]
 			reject("user-prefix", opPrefix, tok)
